@@ -390,6 +390,9 @@ class MetadorGroup(MetadorNode):
     def __iter__(self):
         return iter(self.keys())
 
+    def __reversed__(self):
+        return reversed(list(self.keys()))
+
     def __len__(self):
         return len(list(self.keys()))
 
